@@ -160,6 +160,17 @@ def check(ck):
         ck.require(okk, "C02.2", "%s: exit `%s` after %d emission(s)" % (q.fn(fp), q.stmt_text(rn) if rn.ast else "end", cnt),
                    "headers and body emitted exactly once", "do_POST can finish after %d header/body emissions" % cnt,
                    q.loc(fp, rn) if rn.ast else q.loc(fp, fp.node), ex.describe_path(st))
+    # the header block is opened by a status line: every end_headers() is dominated by one send_response(<status>)
+    from vlib.flow import dominators as _dom
+    dgp = _dom(gp)
+    srs = [(n, c) for n in gp.live_nodes() for c in node_calls(n) if call_name(c) in ("send_response", "send_response_only")]
+    for eid in sorted(emit):
+        en = gp.nodes[eid]
+        from vlib.flow import reachable_avoiding as _ra
+        before = [] if eid in _ra(gp, gp.entry.id, set(n.id for (n, _c) in srs)) else srs
+        ck.require(len(before) >= 1, "C02.2", "%s: status line before `%s`" % (q.fn(fp), q.stmt_text(en)[:40]), "every path to the header block passes a send_response(...)",
+                   "a reply can be emitted without a status line (no send_response before this end_headers()): the client cannot parse the "
+                   "HTTP response that carries the JSON reply", q.loc(fp, en))
     # catch-all around read + dispatch
     dcalls = [n for n in gp.live_nodes() for c in node_calls(n) if call_name(c) == "_marshaled_dispatch"]
     if not dcalls:
